@@ -188,8 +188,9 @@ func WrapCR3(parts CR3Parts, rng *rand.Rand, lvl int) []byte {
 		cctp := append(u32(0), u32(1)...)
 		cctp = append(cctp, u32(3)...)
 		meta = append(meta, Box("CCTP", cctp)...)
-		ctbo := u32(4)
-		for i := 1; i <= 4; i++ {
+		nrec := 4 + lvl%2*0 + (lvl - 1) // 4 records at level 1, 5 at level 2 (both occur in camera files)
+		ctbo := u32(nrec)
+		for i := 1; i <= nrec; i++ {
 			ctbo = append(ctbo, u32(i)...)
 			ctbo = append(ctbo, make([]byte, 4)...)
 			ctbo = append(ctbo, u32(1000*i)...)
